@@ -424,7 +424,9 @@ def eval_mnemonic_case(case):
                          f'{"valid" if valid else "not checked"}; seed[:32] as little-endian scalar = {scalar:#x}', {'mnemonic': text, 'curve': curve, 'passphrase': pw, 'email': email}))
         return out, viol
     if validate and not valid:
-        viol.append((f'mnemonic-accept-differs:{len(idx)}-words', f'from_mnemonic accepts "{text}" with an invalid checksum', {'mnemonic': text}))
+        viol.append((f'mnemonic-accept-differs:{len(idx)}-words:{"list" if case["as_list"] else "text"}-form',
+                     f'from_mnemonic(validate=True) accepts {"the word list of " if case["as_list"] else ""}"{text}" with an invalid checksum', {'mnemonic': text, 'as_list': case['as_list']}))
+        return out, viol
     salt = ('mnemonic' + unicodedata.normalize('NFKD', email + pw)).encode()
     seed = hashlib.pbkdf2_hmac('sha512', unicodedata.normalize('NFKD', text).encode(), salt, 2048, 64)
     want_pub = K.indep_pubkey(curve, seed[:32])
@@ -565,6 +567,14 @@ def run(ctx):
             words = valid_mnemonic(n) if valid else [rng.choice(wl) for _ in range(n)]
             cases.append((eval_mnemonic_case, {'kind': 'derive', 'words': words, 'curve': curve, 'validate': rng.random() < 0.8, 'as_list': rng.random() < 0.5,
                                                'pw': rng.choice(['', 'pass', 'Tr3zor!', 'pässwörd', 'x' * 40]), 'email': rng.choice(['', 'a@b.c', 'firstname.lastname@example.org'])}))
+    # every input form x validity x validate flag, on one fast curve: an invalid mnemonic is refused in the list form as in the text form
+    for as_list in (True, False):
+        for validate in (True, False):
+            for valid in (True, False):
+                n = rng.choice([12, 24])
+                words = valid_mnemonic(n) if valid else [rng.choice(wl) for _ in range(n)]
+                cases.append((eval_mnemonic_case, {'kind': 'derive', 'words': words, 'curve': rng.choice(['ed', 'sp', 'p2']), 'validate': validate, 'as_list': as_list,
+                                                   'pw': rng.choice(['', 'pass']), 'email': ''}))
     # corpus: the recorded open finding (BLS derivation from a mnemonic whose seed prefix is not below the group order) and a
     # neighbour that derives — first in every tier, so that the KNOWN-FINDING line does not depend on the seed
     for words in ('abandon abandon abandon abandon abandon abandon abandon abandon abandon abandon abandon about',
